@@ -204,11 +204,11 @@ def obligations(tier):
                     add(be, "cp_tensor:cp_to_vec", tag, setup, lambda I, mk=mk: cpt.cp_to_vec(mk(I)),
                         lambda S, I, r, N=N: [("vec", r, S.group(SP.cp_to_tensor(S, I["w"], I["fs"]), [list(range(N))]))], inst, clause="≡vec(to_tensor)")
                     add(be, "cp_tensor:cp_norm", tag, setup, lambda I, mk=mk: cpt.cp_norm(mk(I)),
-                        lambda S, I, r: [("norm²", r ** 2, S.sumsq(SP.cp_to_tensor(S, I["w"], I["fs"])))], inst, clause="norm²≡Σ|to_tensor|²")
+                        lambda S, I, r: [("norm²", S.resolve_abs(r ** 2, [S.sumsq(SP.cp_to_tensor(S, I["w"], I["fs"]))]), S.sumsq(SP.cp_to_tensor(S, I["w"], I["fs"])))], inst, clause="norm²≡Σ|to_tensor|²")
                     if wrap:
                         add(be, "cp_tensor:CPTensor", tag, setup, lambda I, mk=mk: (mk(I).shape, mk(I).rank, mk(I).to_tensor(), mk(I).norm() ** 2),
                             lambda S, I, r: [("shape", r[0], I["n"]), ("rank", r[1], R), ("to_tensor", r[2], SP.cp_to_tensor(S, I["w"], I["fs"])),
-                                             ("norm²", r[3], S.sumsq(SP.cp_to_tensor(S, I["w"], I["fs"])))], inst, clause="shape/rank/to_tensor/norm agree")
+                                             ("norm²", S.resolve_abs(r[3], [S.sumsq(SP.cp_to_tensor(S, I["w"], I["fs"]))]), S.sumsq(SP.cp_to_tensor(S, I["w"], I["fs"])))], inst, clause="shape/rank/to_tensor/norm agree")
             if N >= 2:
                 def setup_m(S, N=N):
                     n = dims(N)
